@@ -358,4 +358,59 @@ theorem parsePairs_variant (T : FieldTable) (hno : ∀ c ∈ T.comps, c.mode ≠
   revert this
   cases runComps T.comps ps <;> cases runComps T.comps ps' <;> simp [slotsOf, Except.map]
 
+/-! ### the well-formedness check of an item (`pairOk`) -/
+
+theorem splitFirstEq_eq : ∀ {i n v : Bytes}, splitFirstEq i = some (n, v) → i = n ++ 0x3d :: v := by
+  intro i
+  induction i with
+  | nil => intro n v h; simp [splitFirstEq] at h
+  | cons x xs ih =>
+    intro n v h
+    simp only [splitFirstEq] at h
+    split at h
+    · next hx => cases h; simp [hx]
+    · cases hs : splitFirstEq xs with
+      | none => simp [hs] at h
+      | some p =>
+        obtain ⟨n', v'⟩ := p
+        simp [hs] at h
+        obtain ⟨rfl, rfl⟩ := h
+        simp [ih hs]
+
+theorem mem_of_mem_trimStart {ws l : Bytes} {x : UInt8} (h : x ∈ trimStart ws l) : x ∈ l :=
+  (List.dropWhile_sublist _).subset h
+
+theorem mem_of_mem_trimEnd {ws l : Bytes} {x : UInt8} (h : x ∈ trimEnd ws l) : x ∈ l := by
+  unfold trimEnd at h
+  have h1 : x ∈ l.reverse.dropWhile ws.contains := by simpa using h
+  have := (List.dropWhile_sublist _).subset h1
+  simpa using this
+
+theorem valueOk_of_no_quote (v : Bytes) (h : (0x22 : UInt8) ∉ v) : valueOk (some v) = true := by
+  unfold valueOk
+  have hh : v.head? ≠ some 0x22 := by
+    intro hc
+    cases v with
+    | nil => simp at hc
+    | cons y ys => simp at hc; exact h (by simp [hc])
+  simp [hh, h]
+
+/-- an item without a double quote passes the check -/
+theorem pairOk_of_no_quote (i : Bytes) (h : (0x22 : UInt8) ∉ i) : pairOk i = true := by
+  unfold pairOk rawValue nameValue
+  cases hs : splitFirstEq i with
+  | none =>
+    have : (0x22 : UInt8) ∉ trimEnd fieldWs i := fun hm => h (mem_of_mem_trimEnd hm)
+    simp [this, valueOk]
+  | some p =>
+    obtain ⟨n, v⟩ := p
+    have hi := splitFirstEq_eq hs
+    have hn : (0x22 : UInt8) ∉ trimEnd fieldWs n := fun hm => h (by rw [hi]; simp [mem_of_mem_trimEnd hm])
+    have hv : (0x22 : UInt8) ∉ trimStart fieldWs (v.dropWhile (· = 0x3d)) := by
+      intro hm
+      have h1 := mem_of_mem_trimStart hm
+      have h2 : (0x22 : UInt8) ∈ v := (List.dropWhile_sublist _).subset h1
+      exact h (by rw [hi]; simp [h2])
+    simp [hn, valueOk_of_no_quote _ hv]
+
 end Cp.Text
